@@ -240,8 +240,10 @@ pub struct Expect {
 
 #[derive(Debug, Clone)]
 pub struct Plan {
-    /// (k, id): fail the k-th device call of the last operation
+    /// (k, id): fail the k-th device call of the last operation (or of operation `fault_op`)
     pub fault: Option<(u64, u32)>,
+    /// index of the operation the fault is armed for (None: the last one)
+    pub fault_op: Option<usize>,
     /// device-call budget for the last operation
     pub budget: Option<u64>,
     pub suffix: bool,
@@ -255,7 +257,7 @@ pub struct Plan {
 
 impl Default for Plan {
     fn default() -> Self {
-        Plan { fault: None, budget: Some(2_000_000), suffix: true, suffix_minimal: false, log_data: false, log_all: false, pre_decode: true }
+        Plan { fault: None, fault_op: None, budget: Some(2_000_000), suffix: true, suffix_minimal: false, log_data: false, log_all: false, pre_decode: true }
     }
 }
 
@@ -315,6 +317,8 @@ pub struct Exec {
     pub log: Vec<Rec>,
     pub last_op_log_start: usize,
     pub fired: Option<crate::dev::Fired>,
+    /// fault fired during operation `Plan::fault_op` (not the last one)
+    pub fired_early: Option<crate::dev::Fired>,
     pub budget_hit: bool,
     pub calls_last: u64,
     pub oob_write: bool,
@@ -1232,6 +1236,10 @@ fn run_epoch<'a>(fs: &'a Fs, cx: &mut RunCtx, i: &mut usize) -> EpochEnd {
         if is_last {
             prepare_last(cx, Some(&slots));
         }
+        let armed_here = cx.plan.fault_op == Some(*i) && !is_last;
+        if armed_here {
+            cx.st.borrow_mut().arm(cx.plan.fault, cx.plan.budget);
+        }
         cx.st.borrow_mut().op_idx = *i as u32;
         let t_before = cx.ctr.get();
         let m_snapshot = cx.ex.model.clone();
@@ -1254,6 +1262,12 @@ fn run_epoch<'a>(fs: &'a Fs, cx: &mut RunCtx, i: &mut usize) -> EpochEnd {
         };
         if is_last {
             after_last_counters(cx);
+        }
+        if armed_here {
+            let mut st = cx.st.borrow_mut();
+            cx.ex.fired_early = st.fired;
+            st.disarm();
+            st.fired = None;
         }
         let t_after = cx.ctr.get();
         let expect = model_step(&mut cx.ex.model, op, &res, (t_before, t_after), cx.cfg.atime);
@@ -1318,7 +1332,8 @@ fn prepare_last(cx: &mut RunCtx, slots: Option<&Slots>) {
     cx.ex.last_op_log_start = st.log.len();
     st.logging = true;
     st.log_data = cx.plan.log_data;
-    st.arm(cx.plan.fault, cx.plan.budget);
+    let fault = if cx.plan.fault_op.is_none() { cx.plan.fault } else { None };
+    st.arm(fault, cx.plan.budget);
 }
 
 fn after_last_counters(cx: &mut RunCtx) {
@@ -1449,6 +1464,7 @@ pub fn run(cfg: &Cfg, ops: &[Op], plan: &Plan) -> Exec {
         log: Vec::new(),
         last_op_log_start: 0,
         fired: None,
+        fired_early: None,
         budget_hit: false,
         calls_last: 0,
         oob_write: false,
